@@ -346,17 +346,25 @@ func (w *world) overlapsOtherGet(gr *getRec) bool {
 	return false
 }
 
-const c06cRule = "lone SkipRead Gets: variant x SyncUpdate x SyncRead x initial state {fresh, stale, absent} x caller TTL; oracle: the builder is invoked exactly once even though a fresh value exists, Get returns the new token, " +
-	"a plain backend read afterwards returns the new token with expiry = now + caller TTL (or backend default); non-trivial = the entry was fresh before the SkipRead Get"
+const c06cRule = "lone SkipRead Gets: variant x SyncUpdate x SyncRead x initial state {fresh, stale, absent} x caller TTL x failure cached for the key {no, yes}; oracle: the builder is invoked exactly once even though a fresh value exists, Get returns the new token, " +
+	"a plain backend read afterwards returns the new token with expiry = now + caller TTL (or backend default); non-trivial = the entry was fresh before the SkipRead Get or a failure was cached for the key"
 
 // TestC06SkipReadLone: SkipRead forces a rebuild whose result is still stored.
 func TestC06SkipReadLone(t *testing.T) {
 	runCheck(t, "C06", "C06SkipReadLone", c06cRule, func(c *Case) {
-		cfg := foCfg{variant: c.Pick("variant", 3), syncUpdate: c.Bool("SyncUpdate"), syncRead: c.Bool("SyncRead"), backendTTL: time.Hour, failedUpdateTTL: -1}
+		cfg := foCfg{variant: c.Pick("variant", nVariants), syncUpdate: c.Bool("SyncUpdate"), syncRead: c.Bool("SyncRead"), backendTTL: time.Hour, failedUpdateTTL: -1}
+
+		// a failure cached for the key must not stop a SkipRead Get from rebuilding
+		prefail := c.Bool("failure-cached")
+		if prefail {
+			cfg.failedUpdateTTL = []time.Duration{0, 10 * time.Minute}[c.Pick("FailedUpdateTTL", 2)]
+			c.Class("failure-cached")
+			c.NonTrivial()
+		}
 		cfg.maxStaleness = []time.Duration{0, 30 * time.Second}[c.Pick("MaxStaleness", 2)]
 		state := []int{ksFresh, ksStaleRecent, ksAbsent}[c.Pick("state", 3)]
 		callerTTL := []time.Duration{0, 10 * time.Minute, 3 * time.Hour}[c.Pick("callerTTL", 3)]
-		sc := &scenario{cfg: cfg, nkeys: 1, states: []int{state}, ages: []time.Duration{time.Nanosecond}, prefail: []bool{false}}
+		sc := &scenario{cfg: cfg, nkeys: 1, states: []int{state}, ages: []time.Duration{time.Nanosecond}, prefail: []bool{prefail}}
 		sc.describe(c)
 
 		if state == ksFresh {
